@@ -160,6 +160,10 @@ void h_roundtrip(void) {
     JanetFuncDef *d = &dd_def;
     int32_t n = nd_i32(), c = nd_i32(), e = nd_i32(), nd = nd_i32(), s = nd_i32();
     __CPROVER_assume(n >= 1 && n <= DD_MAX && c >= 0 && c <= DD_MAX && e >= 0 && e <= DD_MAX && nd >= 0 && nd <= DD_MAX && s >= 0 && s <= DD_MAX);
+#ifdef DD_FIX
+    /* all lists of the same, constant length (block sizes become constants: minutes -> seconds); bytecode has at least one word */
+    n = DD_FIX > 0 ? DD_FIX : 1; c = DD_FIX; e = DD_FIX; nd = DD_FIX; s = DD_FIX;
+#endif
     for (int i = 0; i < DD_MAX; i++) {
         dd_bc[i] = nd_u32() & ~0x80u;                  /* no breakpoint set: debugger state, not part of the function */
         dd_consts[i] = dd_any();
